@@ -583,12 +583,12 @@ def _paths(stmts, conds=()):
     return out
 
 
-def check_build(ix, rep, f, opname, online=False, rule='R-SEGBUILD', slot_prefix=''):
+def check_build(ix, rep, f, opname, online=False, rule='R-SEGBUILD', slot_prefix='', origin=False):
     """the influence interval b built for sample k and the initial filler segment"""
     slot = '%s%s' % (slot_prefix, opname)
     try:
         info = find_step(f.node)
-        n = _check_build(rep, f, opname, online, rule, slot, info)
+        n = _check_build(rep, f, opname, online, rule, slot, info, origin)
     except Shape as e:
         rep.error('%s (%s): %s; the kernel was decided on the pinned tree' % (f.where, f.qual, e))
         return 0
@@ -669,7 +669,7 @@ def _subst_alias(e, aliases, listname):
     return T().visit(copy.deepcopy(e))
 
 
-def _check_build(rep, f, opname, online, rule, slot, info):
+def _check_build(rep, f, opname, online, rule, slot, info, origin=False):
     names, facts, step, init_aff = _loop_setup(f, info)
     past = opname in ('once', 'historically')
     neutral = -1 if opname in MAXOPS else 1     # the filler value: -inf for max, +inf for min
@@ -749,8 +749,25 @@ def _check_build(rep, f, opname, online, rule, slot, info):
                     continue
                 g0, g1, g2 = [_lin(x, names) for x in arg.elts]
                 first = tuple(sorted((str(kk), v) for kk, v in {}.items()))
-                if g0 != {} or g1 != {('T', first): Fraction(1), 'begin': Fraction(1)} or g2 != {'inf': Fraction(neutral)}:
-                    problems.append(('filler', 'the filler segment is %s instead of (0, T[0] + begin, %sinf)' % (ast.unparse(arg), '-' if neutral < 0 else ''), st.lineno))
+                if g1 != {('T', first): Fraction(1), 'begin': Fraction(1)} or g2 != {'inf': Fraction(neutral)} or g0 not in ({}, {('T', first): Fraction(1)}):
+                    problems.append(('filler', 'the filler segment is %s instead of (T[0], T[0] + begin, %sinf)' % (ast.unparse(arg), '-' if neutral < 0 else ''), st.lineno))
+                elif g0 == {}:
+                    # starts at the literal 0: that is the start of the operand only when the path condition says T[0] == 0 (the online kernels
+                    # use that test to recognise the very first chunk)
+                    says_zero = False
+                    for (t, truth) in conds:
+                        if truth:
+                            for v in (t.values if isinstance(t, ast.BoolOp) and isinstance(t.op, ast.And) else [t]):
+                                if isinstance(v, ast.Compare) and len(v.ops) == 1 and isinstance(v.ops[0], ast.Eq):
+                                    try:
+                                        lv, rv = _lin(v.left, names), _lin(v.comparators[0], names)
+                                    except Shape:
+                                        continue
+                                    if {('T', first): Fraction(1)} in (lv, rv) and {} in (lv, rv):
+                                        says_zero = True
+                    if not says_zero and origin:
+                        problems.append(('origin', 'the filler segment starts at time 0, not at T[0], the first time-stamp of the operand: for a signal that starts later the result '
+                                         'starts before the domain of its input (the property: the result starts at the beginning of the common input domain)', st.lineno))
                 # only in the first iteration, only when begin > 0
                 txt = [ast.unparse(t).replace(' ', '') for (t, truth) in conds if truth]
                 conj = []
@@ -800,18 +817,18 @@ def _check_build(rep, f, opname, online, rule, slot, info):
 
 
 # ===================================================================================== R-SEGOUT: segments -> samples
-def check_output(ix, rep, f, opname, rule='R-SEGOUT', slot_prefix=''):
+def check_output(ix, rep, f, opname, rule='R-SEGOUT', slot_prefix='', origin=False):
     """the pass that turns the segment stack into [time, value] samples (offline kernels)"""
     slot = '%s%s' % (slot_prefix, opname)
     try:
         info = find_step(f.node)
-        return _check_output(rep, f, opname, rule, slot, info)
+        return _check_output(rep, f, opname, rule, slot, info, origin)
     except Shape as e:
         rep.error('%s (%s): %s; the kernel was decided on the pinned tree' % (f.where, f.qual, e))
         return 0
 
 
-def _check_output(rep, f, opname, rule, slot, info):
+def _check_output(rep, f, opname, rule, slot, info, origin=False):
     past = opname in ('once', 'historically')
     stack = info['stack']
     loops = [s for s in f.node.body if isinstance(s, ast.For) and any(isinstance(n, ast.Name) and n.id == stack for n in ast.walk(s.iter))]
@@ -847,6 +864,18 @@ def _check_output(rep, f, opname, rule, slot, info):
                                         or (isinstance(init, ast.Constant) and init.value is None) or ast.unparse(init) in ('math.nan', 'object()'))
         if not ok_init:
             problems.append(('prev-init', 'the previous value starts as %s: a first segment with that value would be dropped' % (ast.unparse(init) if init is not None else 'undefined'), lp.lineno))
+    # names for the start of the operand: x = <list>[0][0], possibly under `if <list>` / with a default for the empty list.  Times are
+    # modelled relative to that origin (the kernel is invariant under a shift of the time axis), so the origin evaluates to 0 below
+    origin_names = set()
+    lst = info.get('list')
+    for s_ in ast.walk(f.node):
+        if isinstance(s_, ast.Assign) and len(s_.targets) == 1 and isinstance(s_.targets[0], ast.Name):
+            v_ = s_.value
+            if isinstance(v_, ast.IfExp):
+                v_ = v_.body
+            if isinstance(v_, ast.Subscript) and isinstance(v_.value, ast.Subscript) and isinstance(v_.slice, ast.Constant) and v_.slice.value == 0 \
+                    and isinstance(v_.value.slice, ast.Constant) and v_.value.slice.value == 0 and isinstance(v_.value.value, ast.Name):
+                origin_names.add(s_.targets[0].id)
     nstates = 0
     for pos in ('0<b0', '0=b0', 'b0<0<b1', '0=b1', 'b1<0'):
         if past and pos not in ('0<b0', '0=b0'):
@@ -857,7 +886,7 @@ def _check_output(rep, f, opname, rule, slot, info):
                 continue
             for last in (False, True):
                 nstates += 1
-                env = {seg: (Fraction(b0), Fraction(b1), 'b2'), 'prev': 'b2' if veq else 'other', 'last': last}
+                env = {seg: (Fraction(b0), Fraction(b1), 'b2'), 'prev': 'b2' if veq else 'other', 'last': last, 'origin-names': origin_names}
                 emitted = []
                 _run_out(lp.body, env, seg, idx, stack, ans, prevname, emitted)
                 want_time = Fraction(b0) if past else max(Fraction(b0), Fraction(0))
@@ -870,6 +899,9 @@ def _check_output(rep, f, opname, rule, slot, info):
                     problems.append(('spurious', 'state %s: a sample is emitted for a segment that ends before time 0' % state, lp.lineno))
                 if len(emitted) > 1:
                     problems.append(('dup', 'state %s: %d samples emitted for one segment' % (state, len(emitted)), lp.lineno))
+                if env.get('literal-origin') and not past and origin:
+                    problems.append(('origin', 'segments are compared with, and clipped to, the literal time 0 instead of the first time-stamp of the operand: for a signal that '
+                                     'starts at T[0] > 0 the result starts at max(T[0] - end, 0), before the domain of its input', lp.lineno))
                 for (t, v) in emitted:
                     if may and t != want_time:
                         problems.append(('time', 'state %s: the sample is emitted at %s instead of %s' % (state, t, 'b0' if past else 'max(b0, 0)'), lp.lineno))
@@ -896,7 +928,10 @@ def _run_out(stmts, env, seg, idx, stack, ans, prevname, emitted):
         if isinstance(e, ast.Subscript) and _is_name(e.value, seg) and isinstance(e.slice, ast.Constant):
             return env[seg][e.slice.value]
         if isinstance(e, ast.Constant) and isinstance(e.value, (int, float)):
+            env['literal-origin'] = True
             return Fraction(e.value)
+        if isinstance(e, ast.Name) and e.id in env.get('origin-names', ()):
+            return Fraction(0)
         if prevname and _is_name(e, prevname):
             return env['prev']
         raise Shape('output expression %s' % ast.unparse(e)[:40])
